@@ -27,6 +27,10 @@ pub fn verify_all(alg: Alg, key: &KeyPub, msg: &[u8], sig: &[u8], locus: &str, f
         Ok(false) => f.push(Finding::new("SIG-INVALID(openssl)", locus, format!("OpenSSL rejects the {} signature over the signed bytes", alg.name()))),
         Err(e) => f.push(Finding::new("SIG-INVALID(openssl)", locus, e)),
     }
+    // the two back ends' RSA verifiers are defined for moduli of 2048..=8192 bits only (a remote signer may use less)
+    if alg.is_rsa() && key.raw.len() < 260 {
+        return;
+    }
     if ring_verify(alg, &key.raw, msg, sig) == Some(false) {
         f.push(Finding::new("SIG-INVALID(ring)", locus, format!("ring rejects the {} signature", alg.name())));
     }
@@ -190,7 +194,7 @@ fn judge_crl(st: &CrlState, issuer: &IssuerReal, signer: &RealKey) -> Outcome {
 fn real_keys(zoo: &[ZooKey], thorough: bool) -> Vec<(RealKey, RealKey)> {
     let mut v = Vec::new();
     for z in zoo.iter().filter(|z| z.format == KeyFormat::Pkcs8 && backend_supports(z.kind, z.format) && z.name.contains("_1")) {
-        if matches!(z.kind, KeyKind::Rsa3072 | KeyKind::Rsa4096) && !thorough {
+        if z.kind.is_slow() && !thorough {
             continue;
         }
         let algs: Vec<Alg> = if z.kind.is_rsa() { vec![Alg::RsaSha256, Alg::RsaSha384, Alg::RsaSha512] } else { vec![z.kind.natural_alg()] };
@@ -209,7 +213,7 @@ fn real_keys(zoo: &[ZooKey], thorough: bool) -> Vec<(RealKey, RealKey)> {
 fn remote_keys(zoo: &[ZooKey], thorough: bool) -> Vec<RealKey> {
     let mut v = Vec::new();
     for z in zoo.iter().filter(|z| z.format == KeyFormat::Pkcs8 && z.name.contains("_1")) {
-        if matches!(z.kind, KeyKind::Rsa3072 | KeyKind::Rsa4096) && !thorough {
+        if z.kind.is_slow() && !thorough {
             continue;
         }
         let algs: Vec<Alg> = if z.kind.is_rsa() { vec![Alg::RsaSha256, Alg::RsaSha384, Alg::RsaSha512] } else { vec![z.kind.natural_alg()] };
